@@ -9,7 +9,20 @@ import (
 	"math/big"
 
 	vmcommon "github.com/ElrondNetwork/elrond-vm-common"
+	"github.com/ElrondNetwork/elrond-vm-common/data/esdt"
 )
+
+// validNFTPayload is what a sender side would put into the 4th argument: a decodable entry with value and metadata
+func validNFTPayload(nonce uint64, qty int64, creator []byte) []byte {
+	t := &esdt.ESDigitalToken{Type: uint32(vmcommon.NonFungible), Value: big.NewInt(qty),
+		TokenMetaData: &esdt.MetaData{Nonce: nonce, Name: []byte("s1"), Creator: creator, Royalties: 250, Hash: []byte("hash-s1"),
+			URIs: [][]byte{[]byte("uri1"), []byte("uri2")}, Attributes: []byte("attr")}}
+	b, err := t.Marshal()
+	if err != nil {
+		panic(err)
+	}
+	return b
+}
 
 func coverCalls(u *universe, w *hWorld) []*callSpec {
 	mk := func(shard uint32, fn string, caller, rcpt []byte, snd, dst bool, args ...[]byte) *callSpec {
@@ -34,6 +47,15 @@ func coverCalls(u *universe, w *hWorld) []*callSpec {
 		mk(0, "ESDTNFTTransfer", a, b, true, true, nft, one, one, []byte{1}),
 		mk(0, "ESDTNFTTransfer", u.U[2], b, false, false, nft, one, one, []byte{1}),
 		mk(0, "ESDTNFTTransfer", u.U[2], b, false, true, nft, one, one, []byte{0xff, 0xff}), // undecodable payload
+	)
+	// delivery-SHAPED calls by a LOCAL user with a perfectly valid payload: the sender account is present, so the
+	// destination side must refuse them (a transaction can carry this shape; accepting it credits from nothing)
+	pay := validNFTPayload(1, 5, a)
+	l = append(l,
+		mk(0, "ESDTNFTTransfer", a, b, true, true, nft, one, be(5), pay),
+		mk(0, "ESDTNFTTransfer", a, b, true, true, nft, one, be(5), pay, []byte("f")),
+		mk(0, "MultiESDTNFTTransfer", a, b, true, true, one, nft, one, pay),
+		mk(0, "MultiESDTNFTTransfer", a, b, true, true, be(2), tok, nil, be(3), nft, one, pay),
 	)
 	// system-contract functions with a wrong shape
 	l = append(l,
